@@ -3,6 +3,7 @@ import QR.Spec.Release
 import QR.Proofs.Release
 import QR.Proofs.Pinned
 import QR.Proofs.SourceTieC20
+import QR.Proofs.SourceTieT7
 /-
 C20 - the manual-page release hook (qrcode/release.py `update_manpage`).
 
@@ -113,6 +114,33 @@ example :
     ∧ updateManpage "qrcode".toList "8.0".toList "27 Sep 2026".toList
       "x\n.TH QR 1 \"only one\"\n.TH QR 1 \"26 Sep 2026\" \"8.0\" \"tool\"\n.TH A \"d\" \"6.0\"".toList = none := by
   decide
+
+
+/-! ### Source tie, part 2 (T2 plugins `tools/t2_fragments/`): (second plugin round, `frag_c.py`) the hand-written Model equals the definitions translated from
+    /repo's current Python AST (`QR.Gen.Code`, regenerated on every run). Restated verbatim from `QR/Proofs/SourceTie*.lean`. -/
+section SourceTieT2b
+open QR.Model QR.Gen QR.Gen.Code QR.SourceTieT QR.Spec QR.Proofs.Release
+
+theorem C20_source_manpage_literals_src :
+    manpage_path_base_dir = "os.path.dirname(os.path.dirname(os.path.abspath(__file__)))" ∧
+    manpage_path_filename = "os.path.join(base_dir, 'doc', 'qr.1')" ∧
+    manpage_read_open = "open(filename)" ∧ manpage_write_open = "open(filename, 'w')" ∧
+    manpage_split_pattern = "\"([^\"]*)\"" ∧ manpage_date_format = "%-d %b %Y" :=
+  QR.SourceTieT.manpage_literals_src
+
+/-- the loop `for i, line in enumerate(lines): ...` with its `continue`s and its `break`: `Model.processLines` is the translated
+loop started with `changed = False`, for every list of lines -/
+theorem C20_source_processLines_src (name v d : List Char) (L : List (List Char)) :
+    processLines v d L = manpage_loop name v d false L :=
+  QR.SourceTieT.processLines_src name v d L
+
+/-- `update_manpage(data)`: the model equals the translated function - the `data["name"] != "qrcode"` early return, `readlines`,
+`changed = False`, the loop, and the final `if changed:` write of all lines - for every name, version, date and page text -/
+theorem C20_source_updateManpage_src (name v d page : List Char) :
+    updateManpage name v d page = manpage_update name v d page :=
+  QR.SourceTieT.updateManpage_src name v d page
+
+end SourceTieT2b
 
 /-- the Python functions this property's model mirrors have, in /repo's current working tree, exactly the normalised
     ASTs the model was written and validated against (fingerprints regenerated by T1 on every run) -/
